@@ -4,6 +4,9 @@
   `guard_increment_window` is regenerated from utilities.py on every run; `send_data` and the window bookkeeping
   are the hand model.
 -/
+import H2.Proofs.PairCredit
+-- the credit equation of one window between two endpoints, everything in flight (arithmetic of windows.py + C03/C04/C11)
+-- @also H2.PairCredit.data_never_overruns
 import H2.Proofs.StreamLemmas
 
 namespace H2.C03
